@@ -47,6 +47,25 @@ def gen(tier, rng):
             if rng.random() < 0.15:
                 ops.append("r")
         cases.append("annexb " + ",".join(ops + ["r"]))
+    # long units / long zero padding / empty units ahead of long units (fast paths keyed on sizes), through the model
+    for i in range(300 if tier == "quick" else 6000):
+        s, marks = C01.pattern_stream(rng, big=(i % 10 == 0))
+        parts = C01.boundary_partition(rng, s, marks) if rng.random() < 0.7 else [s]
+        ops = []
+        for p in parts:
+            ops.append("p" + (hx(p) if p else ""))
+            if rng.random() < 0.1:
+                ops.append("r")
+        cases.append("annexb " + ",".join(ops + ["r"]))
+    for n in (4090, 4096, 4100, 8192):
+        body = bytes((j * 7 + 1) % 255 + 1 for j in range(n))
+        for head in (b"\x00\x00\x01\x00\x00\x01", b"\x00\x00\x01\x00\x00\x00\x01", b"\x00\x00\x01\x09\x00\x00\x01\x00\x00\x01"):
+            cases.append("annexb p%s,r" % hx(head + body + b"\x00\x00\x01\x41"))
+            cases.append("annexb p%s,p%s,r" % (hx(head[:4]), hx(head[4:] + body)))
+    # sizes to 16 MiB (quick) carried across resets, described by sizes: implementation only, judged by big_check
+    from vlib.annexb_util import big_scripts
+    for sc in big_scripts(rng, tier):
+        cases.append("!annexbig F " + sc)
     return cases
 
 
@@ -85,10 +104,16 @@ def shape(case, ans):
 
 
 def canon(case, ans):
+    if case.lstrip("!").startswith("annexbig"):
+        return ans
     return shape(case, ans)
 
 
 def extra_check(r):
+    if r["case"].lstrip("!").startswith("annexbig"):
+        from vlib.annexb_util import big_check
+        d = big_check(r["case"], r["dev"])
+        return ("value", d) if d else None
     s = shape(r["case"], r["dev"])
     if "empty_slice=1" in s or "empty_call_without_end=1" in s or "bad_reset=1" in s or "fresh=0" in s:
         return ("value", "call shape rule broken by the implementation: " + s)
@@ -96,9 +121,11 @@ def extra_check(r):
 
 
 def nontrivial(r):
-    return ";" in r["dev"]
+    return ";" in r["dev"] or "U" in r["dev"]
 
 
 def classify(r):
+    if r["case"].startswith("!"):
+        return ["annexbig"]
     ops = r["case"].split()[1].split(",")
     return ["rawtrace_equal" if r["dev"] == r["model"] else "rawtrace_differs", "resets=%d" % min(4, ops.count("r")), "fresh" if "n" in ops else "nofresh"]
